@@ -247,7 +247,9 @@ func storeValue(c *Column, v Value, rowNo int) (Value, error) {
 	bad := func(what string) error {
 		return myErr(ErWrongValueField, "Incorrect %s value: '%s' for column '%s' at row %d", what, v.Text(), c.Name, rowNo)
 	}
-	oor := func() error { return myErr(ErOutOfRange, "Out of range value for column '%s' at row %d", c.Name, rowNo) }
+	oor := func() error {
+		return myErr(ErOutOfRange, "Out of range value for column '%s' at row %d", c.Name, rowNo)
+	}
 	switch {
 	case t.isInt():
 		n := v
